@@ -1219,7 +1219,11 @@ func (q *seqRun) compareAPIJob(aj *core.APIJob, oj *core.JobSnap, where string) 
 		le = *aj.LastError
 	}
 	if aj.Completed != oj.Completed || aj.Canceled != oj.Canceled || aj.Errored != errored || (aj.LastError != nil) != oj.HasError || le != oj.LastError || aj.Pipeline != oj.Pipeline || (aj.Start != nil) != (oj.Start != nil) || (aj.End != nil) != (oj.End != nil) {
-		q.find([]string{"C15", "C08"}, "C15:http-job-differs-from-runner", "%s (%s): API completed=%v canceled=%v errored=%v lastError=%q, runner completed=%v canceled=%v errored=%v lastError=%q", q.jn(oj.ID), where, aj.Completed, aj.Canceled, aj.Errored, le, oj.Completed, oj.Canceled, errored, oj.LastError)
+		props := []string{"C15", "C08"}
+		if oj.Start == nil && oj.HasError {
+			props = append(props, "C02") // a job that could not be started (cyclic graph, reserved variable) is reported with its error
+		}
+		q.find(props, "C15:http-job-differs-from-runner", "%s (%s): API completed=%v canceled=%v errored=%v lastError=%q, runner completed=%v canceled=%v errored=%v lastError=%q", q.jn(oj.ID), where, aj.Completed, aj.Canceled, aj.Errored, le, oj.Completed, oj.Canceled, errored, oj.LastError)
 	}
 	if len(aj.Tasks) != len(oj.Tasks) {
 		q.find([]string{"C15"}, "C15:http-task-list-size", "%s: API lists %d tasks, runner %d", q.jn(oj.ID), len(aj.Tasks), len(oj.Tasks))
